@@ -67,6 +67,11 @@ pub trait Fl: 'static {
     fn try_send(tx: &Self::Tx, v: Self::P) -> Result<(), TrySendError<Self::P>>;
     fn clone_tx(tx: &Self::Tx) -> Self::Tx;
     fn unsubscribe_tx(tx: Self::Tx);
+    /// state injection: raise the "epoch pending" bit of the queue's signal word (what the real
+    /// memory manager does after more than 20 retirements)
+    fn raise_epoch_signal(tx: &Self::Tx);
+    /// harness-only look at the queue state
+    fn queue_view(tx: &Self::Tx) -> multiqueue2::verif_hooks::QueueView;
 
     fn try_recv(rx: &Self::Rx) -> Result<Self::P, TryRecvError>;
     fn recv(rx: &Self::Rx) -> Result<Self::P, RecvError>;
@@ -113,6 +118,12 @@ impl<P: Pay, W: WaitSel> Fl for BcastPlain<P, W> {
     }
     fn unsubscribe_tx(tx: Self::Tx) {
         tx.unsubscribe()
+    }
+    fn raise_epoch_signal(tx: &Self::Tx) {
+        tx.verif_raise_epoch_signal()
+    }
+    fn queue_view(tx: &Self::Tx) -> multiqueue2::verif_hooks::QueueView {
+        tx.verif_view()
     }
     #[inline(always)]
     fn try_recv(rx: &Self::Rx) -> Result<P, TryRecvError> {
@@ -172,6 +183,12 @@ impl<P: Pay, W: WaitSel> Fl for MpmcPlain<P, W> {
     }
     fn unsubscribe_tx(tx: Self::Tx) {
         tx.unsubscribe()
+    }
+    fn raise_epoch_signal(tx: &Self::Tx) {
+        tx.verif_raise_epoch_signal()
+    }
+    fn queue_view(tx: &Self::Tx) -> multiqueue2::verif_hooks::QueueView {
+        tx.verif_view()
     }
     #[inline(always)]
     fn try_recv(rx: &Self::Rx) -> Result<P, TryRecvError> {
@@ -254,6 +271,12 @@ impl<P: Pay, const A: usize, const B: usize> Fl for BcastFut<P, A, B> {
     }
     fn unsubscribe_tx(tx: Self::Tx) {
         tx.unsubscribe()
+    }
+    fn raise_epoch_signal(tx: &Self::Tx) {
+        tx.verif_raise_epoch_signal()
+    }
+    fn queue_view(tx: &Self::Tx) -> multiqueue2::verif_hooks::QueueView {
+        tx.verif_view()
     }
     #[inline(always)]
     fn try_recv(rx: &Self::Rx) -> Result<P, TryRecvError> {
@@ -340,6 +363,12 @@ impl<P: Pay, const A: usize, const B: usize> Fl for MpmcFut<P, A, B> {
     }
     fn unsubscribe_tx(tx: Self::Tx) {
         tx.unsubscribe()
+    }
+    fn raise_epoch_signal(tx: &Self::Tx) {
+        tx.verif_raise_epoch_signal()
+    }
+    fn queue_view(tx: &Self::Tx) -> multiqueue2::verif_hooks::QueueView {
+        tx.verif_view()
     }
     #[inline(always)]
     fn try_recv(rx: &Self::Rx) -> Result<P, TryRecvError> {
